@@ -23,6 +23,9 @@ Sub-checks
                  infinity, y = 0 on even-order curves, scalars 0..2n+1) vs the affine reference
   rpa            generate_private_address(irk) resolves under irk; under an unrelated key the
                  resolver's answer equals an independent recomputation of ah
+  rpa_history    every sequence (length <= 3 quick / 4 thorough) of resolve() calls on ONE
+                 long-lived AddressResolver over {genuine RPA, other prand, unrelated IRK with the
+                 same prand, flipped hash bit, RPA of a second key, static, identity, generated}
 """
 from __future__ import annotations
 
@@ -416,6 +419,45 @@ def cmac_keys():
     return keys
 
 
+BOUNDARY_BYTES = (0x00, 0x01, 0x7F, 0x80, 0x81, 0xFE, 0xFF)
+_SUBKEY_SEARCH = {}
+
+
+def subkey_first_bytes(key: bytes):
+    """(L[0], K1[0]) for a CMAC key, with the reference."""
+    L = R.FastAES(key).encrypt(bytes(16))
+    return L[0], ((L[0] << 1) | (L[1] >> 7)) & 0xFF  # the Rb xor only touches the last byte
+
+
+def subkey_boundary_keys(all_values: bool = False):
+    """Deterministic search (keys 0, 1, 2, ... as 128-bit big-endian integers) for CMAC keys
+    whose L = AES_K(0) and whose K1 have a FIRST BYTE equal to each wanted value: the branch
+    conditions of the sub-key derivation look at that byte, so every boundary value of it is a
+    distinct input class.  Returns {('L', v) | ('K1', v): key}; wanted values are the 7
+    boundary bytes, or all 256 (all_values)."""
+    if all_values in _SUBKEY_SEARCH:
+        return _SUBKEY_SEARCH[all_values]
+    wanted = range(256) if all_values else BOUNDARY_BYTES
+    need = {(w, v) for w in ('L', 'K1') for v in wanted}
+    found = {}
+    i = 0
+    while need:
+        key = i.to_bytes(16, 'big')
+        l0, k10 = subkey_first_bytes(key)
+        for tag in (('L', l0), ('K1', k10)):
+            if tag in need:
+                need.discard(tag)
+                found[tag] = key
+        i += 1
+        assert i < 1 << 20, 'sub-key boundary search did not converge'
+    # second opinion from the textbook reference
+    for (w, v), key in found.items():
+        L, k1, _ = R.cmac_subkeys(key)
+        assert (L[0] if w == 'L' else k1[0]) == v
+    _SUBKEY_SEARCH[all_values] = found
+    return found
+
+
 def cmac_fill(kind: str, n: int) -> bytes:
     if kind == 'zeros':
         return bytes(n)
@@ -438,9 +480,29 @@ def cmac_len_class(n: int) -> str:
 def cmac_space(quick: bool):
     lengths = list(range(0, 81)) if quick else list(range(0, 161)) + [255, 256, 257, 1023, 1024, 1025, 4095, 4096, 4097]
     fills = ['zeros', 'counter', 'ones'] + ([] if quick else ['pad_like'])
-    for key in cmac_keys():
+    base_keys = cmac_keys()
+    for key in base_keys:
         for n in lengths:
             for f in fills:
+                yield (key, n, f)
+    # sub-key derivation boundaries: first byte of L and of K1 at every boundary value,
+    # crossed with every length 0..80 (all residues, empty / partial / full last block)
+    seen = set(base_keys)
+    for _tag, key in sorted(subkey_boundary_keys(False).items()):
+        if key in seen:
+            continue
+        seen.add(key)
+        for n in range(0, 81):
+            for f in fills[:3]:
+                yield (key, n, f)
+    # ... and at all 256 values, crossed with block-boundary lengths (quick) / 0..48 (thorough)
+    short = [0, 1, 15, 16, 17, 31, 32, 33] if quick else list(range(0, 49))
+    for _tag, key in sorted(subkey_boundary_keys(True).items()):
+        if key in seen:
+            continue
+        seen.add(key)
+        for n in short:
+            for f in (['counter'] if quick else ['counter', 'zeros']):
                 yield (key, n, f)
 
 
@@ -461,6 +523,12 @@ def w_aes_cmac(cases):
         L, k1, _ = R.cmac_subkeys(key)
         st.add('subkey_branches', (L[0] >> 7, k1[0] >> 7))
         st.add('keys', key)
+        st.add('L_first_byte_values', L[0])
+        st.add('K1_first_byte_values', k1[0])
+        if L[0] in BOUNDARY_BYTES:
+            st.add('L_first_byte_boundary_x_len_mod_16', (L[0], n % 16))
+        if k1[0] in BOUNDARY_BYTES:
+            st.add('K1_first_byte_boundary_x_len_mod_16', (k1[0], n % 16))
         eval_cmac(st, bes, key, n, fill)
     if cases:
         st.samples.append({'key': cases[0][0].hex(), 'len': cases[0][1], 'fill': cases[0][2]})
@@ -496,6 +564,79 @@ def toolbox_space(max_off: int):
                     yield (fn, tuple(args), k)
 
 
+# which argument is the AES-CMAC key, and whether the toolbox byte-reverses it first
+CMAC_KEY_ARG = {'f4': (2, True), 'g2': (2, True), 'f6': (0, True), 'h6': (0, True), 'h7': (0, False)}
+
+
+def f5_boundary_w(all_values: bool):
+    """f5 keys its second CMAC with T = AES-CMAC_SALT(W): search W = 0, 1, 2, ... (256-bit
+    big-endian) until T's L / K1 first bytes have taken every wanted value."""
+    wanted = range(256) if all_values else BOUNDARY_BYTES
+    need = {(w, v) for w in ('L', 'K1') for v in wanted}
+    out = []
+    i = 0
+    while need:
+        w_be = i.to_bytes(32, 'big')
+        t = R.aes_cmac(R.F5_SALT, w_be)
+        l0, k10 = subkey_first_bytes(t)
+        hit = {('L', l0), ('K1', k10)} & need
+        if hit:
+            need -= hit
+            out.append(w_be[::-1])
+        i += 1
+        assert i < 1 << 20
+    return out
+
+
+def toolbox_key_space(quick: bool):
+    """(fn, args, k): every CMAC-based toolbox function with its KEY argument at each
+    sub-key boundary key (first byte of L / K1 in the boundary set; thorough: all 256 values),
+    alone and together with one other argument off the spec vector."""
+    vec = {fn: base for (fn, base, _w) in toolbox_vectors().values()}
+    keys = [k for _t, k in sorted(subkey_boundary_keys(False).items())]
+    more = [] if quick else [k for _t, k in sorted(subkey_boundary_keys(True).items()) if k not in keys]
+    for fn, (idx, rev) in CMAC_KEY_ARG.items():
+        base = vec[fn]
+        doms = [arg_domain(a) for a in base]
+        for n, key in enumerate(keys + more):
+            args = list(base)
+            args[idx] = key[::-1] if rev else key
+            yield (fn, tuple(args), 1)
+            if n >= len(keys):
+                continue
+            for j in range(len(base)):
+                if j == idx:
+                    continue
+                for alt in doms[j]:
+                    a2 = list(args)
+                    a2[j] = alt
+                    yield (fn, tuple(a2), 2)
+    base = vec['f5']
+    doms = [arg_domain(a) for a in base]
+    ws = f5_boundary_w(False)
+    for n, w in enumerate(ws + ([] if quick else [w for w in f5_boundary_w(True) if w not in ws])):
+        args = list(base)
+        args[0] = w
+        yield ('f5', tuple(args), 1)
+        if n >= len(ws):
+            continue
+        for j in range(1, len(base)):
+            for alt in doms[j]:
+                a2 = list(args)
+                a2[j] = alt
+                yield ('f5', tuple(a2), 2)
+
+
+def cmac_key_of(fn, args):
+    """The AES-CMAC key(s) a toolbox call uses (most significant octet first), for coverage."""
+    if fn in CMAC_KEY_ARG:
+        idx, rev = CMAC_KEY_ARG[fn]
+        return [args[idx][::-1] if rev else args[idx]]
+    if fn == 'f5':
+        return [R.F5_SALT, R.aes_cmac(R.F5_SALT, args[0][::-1])]
+    return []
+
+
 def eval_toolbox(st, bes, fn, args):
     ref = REF_FN[fn](*args)
     outs = {}
@@ -512,6 +653,12 @@ def w_toolbox(cases):
         st.case((fn, args), nontrivial=k > 0)
         st.add('functions', fn)
         st.add('args_off_vector', k)
+        for key in cmac_key_of(fn, args):
+            l0, k10 = subkey_first_bytes(key)
+            if l0 in BOUNDARY_BYTES:
+                st.add('fn_x_L_first_byte_boundary', (fn, l0))
+            if k10 in BOUNDARY_BYTES:
+                st.add('fn_x_K1_first_byte_boundary', (fn, k10))
         eval_toolbox(st, bes, fn, args)
     if cases:
         st.samples.append({'fn': cases[-1][0], 'args': jsonable(cases[-1][1]), 'args_off_spec_vector': cases[-1][2]})
@@ -1107,11 +1254,130 @@ def w_rpa(arg):
 
 
 # ---------------------------------------------------------------------------
+# rpa_history: ONE long-lived AddressResolver, every short sequence of queries
+# ---------------------------------------------------------------------------
+HIST_IRK_A = RH(_KEY16)
+HIST_IRK_B = bytes(range(16))
+HIST_IRK_X = H('00112233445566778899aabbccddeeff')  # never loaded into the resolver
+HIST_ID_A = ('C0:01:02:03:04:05', 0)
+HIST_ID_B = ('F1:F2:F3:F4:F5:F6', 1)
+HIST_SYMBOLS = ['gA1', 'gA2', 'xX1', 'flip1', 'gB1', 'static', 'identity', 'genA1', 'genX1']
+# raw draw pairs (first prand, another prand): the D.7 prand, and small values
+HIST_DRAWS = [((0x94, 0x81, 0x30), (0x01, 0x02, 0x03)), ((0x01, 0x02, 0x03), (0xFF, 0xFF, 0x3F))]
+
+
+def _prand_of(raw):
+    return bytes([raw[0], raw[1], (raw[2] & 0x3F) | 0x40])
+
+
+def hist_address(sym, draws, Address, fs, aes):
+    """The address presented for one alphabet symbol (built with the reference ah, except
+    gen*: produced by the real generate_private_address under the active back end)."""
+    p1, p2 = _prand_of(draws[0]), _prand_of(draws[1])
+    ref_ah = lambda irk, prand: aes[irk].encrypt(bytes(13) + prand[::-1])[-3:][::-1]
+    if sym == 'gA1':
+        return Address(ref_ah(HIST_IRK_A, p1) + p1, Address.RANDOM_DEVICE_ADDRESS)
+    if sym == 'gA2':
+        return Address(ref_ah(HIST_IRK_A, p2) + p2, Address.RANDOM_DEVICE_ADDRESS)
+    if sym == 'xX1':  # RPA of an unrelated IRK that uses the SAME prand as gA1
+        return Address(ref_ah(HIST_IRK_X, p1) + p1, Address.RANDOM_DEVICE_ADDRESS)
+    if sym == 'flip1':  # gA1 with one hash bit flipped
+        h = ref_ah(HIST_IRK_A, p1)
+        return Address(bytes([h[0] ^ 0x01]) + h[1:] + p1, Address.RANDOM_DEVICE_ADDRESS)
+    if sym == 'gB1':  # RPA of IRK B with the same prand (B is loaded in configuration 'AB' only)
+        return Address(ref_ah(HIST_IRK_B, p1) + p1, Address.RANDOM_DEVICE_ADDRESS)
+    if sym == 'static':
+        return Address('D5:D4:D3:D2:D1:D0', Address.RANDOM_DEVICE_ADDRESS)
+    if sym == 'identity':
+        return Address(*HIST_ID_A)
+    if sym in ('genA1', 'genX1'):
+        fs.next = bytes(draws[0]) + b'\x11\x22\x33'
+        return Address.generate_private_address(HIST_IRK_A if sym == 'genA1' else HIST_IRK_X)
+    raise ValueError(sym)
+
+
+def hist_expected(addr_bytes, keys, aes):
+    """History-free recomputation: the first loaded key whose ah(irk, prand) equals the hash."""
+    h, prand = addr_bytes[0:3], addr_bytes[3:6]
+    for irk, ident in keys:
+        if aes[irk].encrypt(bytes(13) + prand[::-1])[-3:][::-1] == h:
+            return ident
+    return None
+
+
+def hist_run(seq, config, draws, backend, Address, AddressResolver, fs, aes):
+    """Returns None or (position, symbol, history_dependent, message)."""
+    id_a, id_b = Address(*HIST_ID_A), Address(*HIST_ID_B)
+    keys = [(HIST_IRK_A, id_a)] if config == 'A' else [(HIST_IRK_A, id_a), (HIST_IRK_B, id_b)] if config == 'AB' else [(HIST_IRK_B, id_b), (HIST_IRK_A, id_a)]
+    resolver = AddressResolver(list(keys))
+    for pos, sym in enumerate(seq):
+        addr = hist_address(sym, draws, Address, fs, aes)
+        ab = bytes(addr)
+        if sym.startswith('gen'):
+            irk = HIST_IRK_A if sym == 'genA1' else HIST_IRK_X
+            p1 = _prand_of(draws[0])
+            want_ab = aes[irk].encrypt(bytes(13) + p1[::-1])[-3:][::-1] + p1
+            if ab != want_ab:
+                return (pos, sym, pos > 0, f'generate_private_address gave {ab.hex()}, expected {want_ab.hex()}')
+        want = hist_expected(ab, keys, aes)
+        got = resolver.resolve(addr)
+        ok = (got is None) if want is None else (got is not None and bytes(got) == bytes(want))
+        if not ok:
+            fresh = AddressResolver(list(keys)).resolve(addr)
+            fresh_ok = (fresh is None) if want is None else (fresh is not None and bytes(fresh) == bytes(want))
+            return (
+                pos, sym, fresh_ok,
+                f'resolver({config}) after {list(seq[:pos])} resolved {sym} address {ab.hex()} to {got}; independent recomputation of ah over the loaded keys gives {want}'
+                + (' (a fresh resolver answers correctly: the result depends on the query history)' if fresh_ok else ''),
+            )
+    return None
+
+
+def hist_sequences(max_len: int):
+    for n in range(1, max_len + 1):
+        yield from itertools.product(HIST_SYMBOLS, repeat=n)
+
+
+def w_rpa_history(arg):
+    backend, config, di, seqs = arg
+    import bumble.crypto as bc
+    from bumble.hci import Address
+    from bumble.smp import AddressResolver
+
+    st = core.Stats('rpa_history')
+    aes = {irk: R.FastAES(irk[::-1]) for irk in (HIST_IRK_A, HIST_IRK_B, HIST_IRK_X)}
+    fs = _FixedSecrets()
+    saved = bc.secrets
+    bc.secrets = fs
+    try:
+        with use_backend(backends()[backend]):
+            for seq in seqs:
+                st.case((backend, config, di, seq), nontrivial=len(seq) > 1)
+                st.add('symbols', seq[-1])
+                st.add('lengths', len(seq))
+                st.add('configs', (backend, config, di))
+                res = hist_run(seq, config, HIST_DRAWS[di], backend, Address, AddressResolver, fs, aes)
+                if res:
+                    pos, sym, hd, msg = res
+                    st.violation(
+                        'rpa_history',
+                        {'backend': backend, 'symbol': sym, 'history_dependent': bool(hd)},
+                        f'[{backend} back end] ' + msg,
+                        {'backend': backend, 'config': config, 'draws': di, 'seq': list(seq[: pos + 1])},
+                    )
+    finally:
+        bc.secrets = saved
+    if seqs:
+        st.samples.append({'backend': backend, 'resolver_keys': config, 'sequence': list(seqs[-1]), 'prands': [_prand_of(d).hex() for d in HIST_DRAWS[di]]})
+    return st
+
+
+# ---------------------------------------------------------------------------
 # dispatcher / run
 # ---------------------------------------------------------------------------
 WORKERS = {
     'spec_vectors': w_spec_vectors, 'aes_e': w_aes_e, 'aes_cmac': w_aes_cmac, 'toolbox': w_toolbox, 'p256': w_p256,
-    'p256_invalid': w_p256_invalid, 'ec_small_dh': w_ec_small_dh, 'ec_small_arith': w_ec_small_arith, 'rpa': w_rpa,
+    'p256_invalid': w_p256_invalid, 'ec_small_dh': w_ec_small_dh, 'ec_small_arith': w_ec_small_arith, 'rpa': w_rpa, 'rpa_history': w_rpa_history,
 }  # fmt: skip
 
 
@@ -1150,6 +1416,11 @@ def build_items(ctx):
 
     if want('toolbox'):
         cases = list(toolbox_space(2 if quick else 3))
+        seen_tb = {(fn, a) for fn, a, _ in cases}
+        for c in toolbox_key_space(quick):
+            if (c[0], c[1]) not in seen_tb:
+                seen_tb.add((c[0], c[1]))
+                cases.append(c)
         info['toolbox_cases'] = len(cases)
         for part in core.split(cases, ctx.jobs * 2):
             light.append(('toolbox', part))
@@ -1225,6 +1496,15 @@ def build_items(ctx):
                     for j, part in enumerate(parts):
                         (heavy if not quick else light).append(('rpa', (backend, i, part, 0, 0, j == 0)))
                     info[f'rpa_{backend}_irk{i}'] = f'{len(raws)} structured raw draws'
+    if want('rpa_history'):
+        seqs = list(hist_sequences(3 if quick else 4))
+        info['rpa_history_sequences'] = len(seqs)
+        info['rpa_history_alphabet'] = HIST_SYMBOLS
+        for backend in ('builtin', 'cryptography'):
+            for config in ('A', 'AB', 'BA'):
+                for di in range(len(HIST_DRAWS)):
+                    for part in core.split(seqs, 2 if quick else 8):
+                        (light if quick else heavy).append(('rpa_history', (backend, config, di, part)))
     return heavy + light, info
 
 
@@ -1254,7 +1534,12 @@ def run(ctx: core.Context) -> int:
         + '; ec_small_arith: all ordered point pairs / all scalars 0..2n+1 in several Jacobian representations; '
         'rpa: raw prand draws ('
         + ('13824 structured (all b0 x 6 b1 x 9 raw b2 incl. every top-bit pattern) per IRK and back end' if ctx.quick else 'all 2^22 prands for the spec IRK with both back ends and for a second IRK with cryptography; 13824 structured + 2^16 for the other (IRK, back end) combinations')
-        + '). distinct_nontrivial counts distinct input tuples (per peer pair for ec_small_dh, per point pair for ec_small_arith, per work slice for rpa)'
+        + '); rpa_history: all sequences of <= '
+        + ('3' if ctx.quick else '4')
+        + ' queries over a 9-symbol alphabet on one resolver instance x 3 key configurations x 2 prand pairs x 2 back ends, every answer vs a history-free recomputation'
+        '; aes_cmac/toolbox keys include a deterministic search for keys whose L and K1 first byte take every boundary value {00,01,7F,80,81,FE,FF} x all lengths 0..80, and all 256 values x '
+        + ('block-boundary lengths' if ctx.quick else 'lengths 0..48')
+        + '. distinct_nontrivial counts distinct input tuples (per peer pair for ec_small_dh, per point pair for ec_small_arith, per work slice for rpa)'
     )
     return core.finish(
         ctx,
@@ -1319,6 +1604,9 @@ def replay(v: core.Violation):
         report_small(st, p, b, n, c['x'], c['y'], bad)
     elif v.check == 'ec_small_arith_mismatch':
         r = w_ec_small_arith((c['p'], c['b'], False))
+        return [x.message for x in r.violations if x.key == v.key]
+    elif v.check == 'rpa_history':
+        r = w_rpa_history((c['backend'], c['config'], c['draws'], [tuple(c['seq'])]))
         return [x.message for x in r.violations if x.key == v.key]
     elif v.check == 'rpa':
         r = w_rpa((c['backend'], c['irk_index'], [tuple(c['raw'])], 0, 0, bool(c.get('multi'))))
